@@ -34,6 +34,7 @@ package main
 import (
 	"context"
 	"fmt"
+	"sort"
 	"strconv"
 	"strings"
 	"sync"
@@ -415,6 +416,7 @@ type memStream struct {
 	compact   int64
 	delivered int
 	ended     bool // range-stream shape: the terminator (header revision -1) has arrived, nothing more will come
+	stream    bool // range-stream shape (negative start revision): the events are the kvs of a streamed range
 }
 
 func (m *memStream) Send(r *etcdserverpb.WatchResponse) error {
@@ -466,6 +468,7 @@ func (s *etcdSuite) doWatch(pos []string, opts map[string]string) string {
 		_ = s.srv.Watch(m)
 	}()
 	cr := &etcdserverpb.WatchCreateRequest{Key: nilIfEmpty(unhx(pos[2])), RangeEnd: nilIfEmpty(unhx(pos[3])), StartRevision: atoi64(pos[4]), PrevKv: true}
+	m.stream = cr.StartRevision < 0
 	req := &etcdserverpb.WatchRequest{RequestUnion: &etcdserverpb.WatchRequest_CreateRequest{CreateRequest: cr}}
 	raw, err := req.Marshal()
 	if err != nil {
@@ -564,6 +567,10 @@ func (s *etcdSuite) doWevents(id string, opts map[string]string) string {
 				m.ended = true
 			}
 			for _, e := range r.Events {
+				if m.stream && r.Header != nil && r.Header.Revision == -1 && e.Kv != nil && string(e.Kv.Key) == "eof" && len(e.Kv.Value) > 0 {
+					// the terminator of a streamed range carries the error TEXT as its value: canonical "err"
+					e.Kv.Value = []byte("err")
+				}
 				evs = append(evs, etcdEvStr(e))
 			}
 		}
@@ -585,6 +592,14 @@ func (s *etcdSuite) doWevents(id string, opts map[string]string) string {
 			}
 		}
 		time.Sleep(200 * time.Microsecond)
+	}
+	if m.stream && len(evs) > 1 {
+		// the forked receivers of a partitioned streamed range deliver concurrently: canonical order, terminator last
+		n := len(evs)
+		if m.ended {
+			n--
+		}
+		sort.Strings(evs[:n])
 	}
 	list := "-"
 	if len(evs) > 0 {
